@@ -152,10 +152,136 @@ def report(chk, f, sites, suffix):
     return n
 
 
+KERNEL_FILES = ("_strings/from_integer.hpp", "_strings/to_integer.hpp", "_charconv/", "_string/to_string.hpp")
+
+
+def neg_rule(chk, db):
+    """NEG: a conversion kernel never negates (unary minus / abs) a value of the caller's signed integer type without first
+    reducing it (% or /) or converting it to an unsigned type: for the type's minimum the negation is undefined behaviour
+    and the digits that follow are wrong. Taint: integral parameters and locals copied from them."""
+    n = 0
+    for f in db.funcs:
+        if f.get("body") is None or not any(k in f["file"] for k in KERNEL_FILES):
+            continue
+        tparams = set(tp["n"] for tp in (f.get("tparams") or []))
+        tainted = set(p0["n"] for p0 in f["params"] if p0["ty"].replace("const ", "").strip() in tparams)
+        if not tainted:
+            continue
+
+        def is_tainted(e):
+            e0 = e
+            while e0 is not None and e0.get("k") in ("cast", "paren"):
+                if e0.get("k") == "cast" and ("unsigned" in (e0.get("ty") or "") or "make_unsigned" in (e0.get("ty") or "") or
+                                               (e0.get("ty") or "").startswith("U") or "size_t" in (e0.get("ty") or "")):
+                    return False
+                e0 = e0.get("e")
+            if e0 is None:
+                return False
+            k = e0.get("k")
+            if k == "ref":
+                return e0["n"] in tainted
+            if k == "bin" and e0["op"] in ("%", "/", "<", ">", "<=", ">=", "==", "!=", "&&", "||"):
+                return False
+            if k == "bin":
+                return is_tainted(e0["l"]) or is_tainted(e0["r"])
+            if k == "un" and e0["op"] in ("-", "+"):
+                return is_tainted(e0["e"])
+            if k == "cond":
+                return is_tainted(e0["t"]) or is_tainted(e0["f"])
+            return False
+        # propagate through declarations / assignments (two rounds are enough for these straight-line kernels)
+        for _ in range(2):
+            for st in astx.walk_stmts(f["body"]):
+                if st.get("k") == "decl":
+                    for v in st["vars"]:
+                        if "other" not in v and v.get("init") is not None and is_tainted(v["init"]) and "unsigned" not in v["ty"]:
+                            tainted.add(v["n"])
+        sites = []
+        for x in astx.all_exprs(f):
+            if x.get("k") == "un" and x["op"] == "-" and is_tainted(x["e"]):
+                sites.append(x)
+            if x.get("k") == "call" and astx.callee(x)[0] in ("abs", "labs", "llabs") and x["a"] and is_tainted(x["a"][0]):
+                sites.append(x)
+        n += 1
+        construct = astx.sig(f)
+        chk.instance("NEG")
+        chk.obligation("NEG", construct, not sites)
+        for x in sites[:2]:
+            chk.violation("NEG", construct, "negates-minimum", "%s: `%s` negates a value of the caller's integer type; for the "
+                          "minimum of a signed type this overflows" % (astx.loc(f, x), astx.show(x, 50)), {"where": astx.loc(f)})
+    if n < 3:
+        chk.analysis_broken("NEG: only %d conversion kernels with an integral parameter found (floor 3)" % n)
+
+
+def sign_rule(chk, db):
+    """SIGN: a formatting kernel that can emit '-' emits it on every path on which the value may be negative (std::to_chars
+    writes the sign for every base). Facts come from the tests on the path: `v < 0` false or an unsigned type excuse it."""
+    n = 0
+    for f in db.funcs:
+        if f.get("body") is None or not any(k in f["file"] for k in KERNEL_FILES):
+            continue
+        def stores_minus(e):
+            for x in astx.walk_expr(e, into_lambdas=True):
+                if x.get("k") == "bin" and x["op"] == "=":
+                    r = astx.strip_casts(x["r"])
+                    if r is not None and r.get("k") in ("char", "int") and str(r.get("v")) in ("45", "'-'", "-"):
+                        return True
+            return False
+        if not any(stores_minus(e) for e in [x for x in astx.all_exprs(f)]):
+            continue
+        tparams = set(tp["n"] for tp in (f.get("tparams") or []))
+        vals = [p0["n"] for p0 in f["params"] if p0["ty"].replace("const ", "").strip() in tparams]
+        if not vals:
+            continue
+        v = vals[0]
+        n += 1
+        construct = astx.sig(f)
+        chk.instance("SIGN")
+        bad = None
+        npaths = 0
+        for p in SP.paths(f["body"]):
+            npaths += 1
+            excused = False
+            wrote = False
+            digits = False
+            for ev in p:
+                if ev[0] == "cond":
+                    c = astx.strip_casts(ev[1])
+                    txt = astx.show(c, 80)
+                    if "is_signed" in txt or "is_unsigned" in txt:
+                        if ("is_signed" in txt and ev[2] is False) or ("is_unsigned" in txt and ev[2] is True):
+                            excused = True
+                    # v < 0 (not taken) or v >= 0 / v == 0 (taken): not negative on this path
+                    if c is not None and c.get("k") == "bin" and astx.strip_casts(c["l"]) is not None and \
+                            astx.strip_casts(c["l"]).get("k") == "ref" and astx.strip_casts(c["l"])["n"] == v and astx.int_value(c["r"]) == 0:
+                        if (c["op"] == "<" and ev[2] is False) or (c["op"] in (">=", "==", ">") and ev[2] is True):
+                            excused = True
+                for e in SP.event_exprs(ev):
+                    if stores_minus(e):
+                        wrote = True
+                    # the digit loop: a store of a computed character
+                    for x in astx.walk_expr(e):
+                        if x.get("k") == "bin" and x["op"] == "=" and astx.strip_casts(x["l"]) is not None and \
+                                astx.strip_casts(x["l"]).get("k") == "idx" and not stores_minus(x) and \
+                                astx.strip_casts(x["r"]).get("k") in ("cond", "bin"):
+                            digits = True
+            if digits and not wrote and not excused and bad is None:
+                bad = p
+        chk.obligation("SIGN", construct, bad is None, evaluations=npaths)
+        if bad is not None:
+            conds = [("%s is %s" % (astx.show(ev[1], 40), "true" if ev[2] else "false")) for ev in bad if ev[0] == "cond"][:4]
+            chk.violation("SIGN", construct, "sign-dropped", "%s: digits are produced without a '-' on a path on which `%s` may be negative (%s)" % (
+                astx.loc(f), v, "; ".join(conds)), {"where": astx.loc(f)})
+    if n < 1:
+        chk.analysis_broken("SIGN: no formatting kernel that emits '-' found")
+
+
 def run(chk, tier):
     db = D.load("plain")
     bound_rule(chk, db)
     map_rule(chk, db)
+    neg_rule(chk, db)
+    sign_rule(chk, db)
     chk.assumptions += [
         "digits produced, values parsed, round trips and overflow detection at the type's limits are run-time values and are "
         "not decided by these clauses",
